@@ -6,7 +6,7 @@ EXTENDS Integers, Sequences, FiniteSets, TLC
 Langs == {"eng", "fra", "spa"}
 ContactLangs == {"", "fra", "spa", "kin"}
 States == {"absent", "empty", "blank", "present"}
-Props == {"text", "attachments", "quick_replies", "name"}
+Props == {"text", "attachments", "quick_replies", "name", "arguments"}
 
 NoDup(s) == \A i, j \in DOMAIN s : i # j => s[i] # s[j]
 AllowedLists == {s \in UNION {[1..k -> Langs] : k \in 0..2} : NoDup(s)}
@@ -32,6 +32,15 @@ Pick(prefs, base, tr) ==
 \* (base always terminates the walk, so I is never empty; kept total on purpose)
 
 Source(l, base) == IF l = base THEN "native" ELSE l
+
+\* router case arguments (switch.go matchCase): the translation is looked up the same way, but one whose number of
+\* elements differs from the base arguments ("longer") is ignored altogether - the base arguments are used
+UsableArgs(st) == st \in {"present", "longer"}
+PickArgs(prefs, base, tr) ==
+  LET ok(i) == prefs[i] = base \/ UsableArgs(tr[prefs[i]])
+      I == {i \in DOMAIN prefs : ok(i)}
+      l == IF I = {} THEN base ELSE prefs[CHOOSE i \in I : \A j \in I : i <= j]
+  IN IF l # base /\ tr[l] = "longer" THEN base ELSE l
 
 \* evaluateMessage: text, attachments and quick replies are resolved independently; the message language is the
 \* language of the text if the resolved text is non-empty, else of the attachments, else of the quick replies
